@@ -301,8 +301,9 @@ func check(c Case) vk.Verdict {
 
 // ---- generator ------------------------------------------------------------------------------------------
 
-var mimes = []string{"text/html", "text/plain", "application/json", "image/png", "application/xml", "text/css"}
-var tokens = []string{"utf-8", "gzip", "br", "en", "de", "iso-8859-1", "zstd", "fr"}
+var mimes = []string{"text/html", "text/plain", "application/json", "image/png", "application/xml", "text/css", "text/csv", "image/gif", "image/jpeg", "application/pdf",
+	"application/zip", "audio/mpeg", "video/mp4", "font/woff2", "text/markdown", "application/yaml"}
+var tokens = []string{"utf-8", "gzip", "br", "en", "de", "iso-8859-1", "zstd", "fr", "es", "it", "pt", "nl", "sv", "da", "fi", "pl", "cs", "hu", "ja", "ko"}
 var qPool = []string{"0", "0.0", "0.000", "0.001", "0.1", "0.5", "0.50", "0.9", "0.999", "1", "1.0", "1.000"}
 var pnames = []string{"charset", "level", "v", "title"}
 var pvals = []string{"utf-8", "1", "2", `"a b"`, `"1"`, "UTF-8", `"x,y"`}
@@ -315,6 +316,9 @@ func genStep(t *rapid.T) Step {
 		s.Absent = true
 	}
 	nr := rapid.IntRange(1, 6).Draw(t, "nr")
+	if rapid.IntRange(0, 6).Draw(t, "long") == 0 {
+		nr = rapid.IntRange(7, 24).Draw(t, "nrlong") // browsers and API gateways send long lists; ordering must not depend on the length
+	}
 	for i := 0; i < nr && !s.Absent; i++ {
 		var r Range
 		if media {
